@@ -925,10 +925,16 @@ func (s *Server) processPublish(cl *Client, pk packets.Packet) error {
 		return nil
 	} else if errors.Is(err, packets.CodeSuccessIgnore) {
 		pk.Ignore = true
-	} else if cl.Properties.ProtocolVersion == 5 && pk.FixedHeader.Qos > 0 && errors.As(err, new(packets.Code)) {
-		err = cl.WritePacket(s.buildAck(pk.PacketID, packets.Puback, 0, pk.Properties, err.(packets.Code)))
-		if err != nil {
-			return err
+	} else {
+		// Any other error means the message must not be forwarded or retained. MQTT 5
+		// publishers of QoS 1 and 2 messages are told why with a negative acknowledgement.
+		var code packets.Code
+		if cl.Properties.ProtocolVersion == 5 && pk.FixedHeader.Qos > 0 && errors.As(err, &code) {
+			ackType := packets.Puback
+			if pk.FixedHeader.Qos == 2 {
+				ackType = packets.Pubrec
+			}
+			return cl.WritePacket(s.buildAck(pk.PacketID, ackType, 0, pk.Properties, code))
 		}
 		return nil
 	}
